@@ -13,6 +13,7 @@ struct BlockSnap {
 	std::string canon;                       // payload with reference fields, string indices and bounding spheres masked + string texts
 	std::vector<uint32_t> slotIndex;         // raw index stored in each serialised reference slot (file order; empty array slots already dropped)
 	std::vector<NiObject*> slotTarget;       // the object each slot designates (nullptr: empty or out of range)
+	std::vector<char> slotIsPtr;             // 1: the slot is enumerated by GetPtrs (back-pointer), 0: by GetChildRefs (owning), 2: by neither
 	std::vector<NiObject*> refTargets;       // targets of GetChildRefs (owning references) of the live object
 	std::vector<NiObject*> ptrTargets;       // targets of GetPtrs of the live object
 	bool isNode = false;
@@ -31,9 +32,10 @@ namespace detail {
 struct SnapHook : verif::SyncHooks {
 	NiOStream* nos = nullptr;
 	std::vector<std::pair<std::streamsize, uint32_t>> refs;
+	std::vector<NiRef*> refObjs;
 	std::vector<std::pair<std::streamsize, std::string>> strs;
 	std::vector<std::pair<std::streamsize, size_t>> masks;
-	void BlockRef(bool reading, NiRef* r, const std::type_info*, std::streamsize off) override { if (!reading) refs.push_back({off, r->index}); }
+	void BlockRef(bool reading, NiRef* r, const std::type_info*, std::streamsize off) override { if (!reading) { refs.push_back({off, r->index}); refObjs.push_back(r); } }
 	void StringRef(bool reading, NiStringRef* s, std::streamsize off) override { if (!reading) strs.push_back({off, s->get()}); }
 	void Field(bool reading, verif::FieldKind k, size_t sz, void*, const std::type_info* ti) override {
 		if (reading || k != verif::FieldKind::Struct || !ti || !nos) return;
@@ -67,10 +69,15 @@ inline GraphSnap snapshotGraph(NifFile& nif) {
 		}
 		std::string p = os.str();
 		std::string tail;
-		for (auto& [off, idx] : hook.refs) {
+		std::set<NiRef*> cloneRefs, clonePtrs;
+		clone->GetChildRefs(cloneRefs);
+		clone->GetPtrs(clonePtrs);
+		for (size_t k = 0; k < hook.refs.size(); k++) {
+			auto& [off, idx] = hook.refs[k];
 			if ((size_t)off + 4 <= p.size()) memset(&p[(size_t)off], 0xEE, 4);
 			b.slotIndex.push_back(idx);
 			b.slotTarget.push_back(idx < n ? objs[idx] : nullptr);
+			b.slotIsPtr.push_back(clonePtrs.count(hook.refObjs[k]) ? 1 : cloneRefs.count(hook.refObjs[k]) ? 0 : 2);
 		}
 		if (indexStrings)
 			for (auto& [off, text] : hook.strs) {
